@@ -11,7 +11,7 @@ from . import c03
 NAMING = True
 ID = "C19"
 ORACLE = "Oracle.C19"
-PROPS = "Props/C19.v"
+PROPS = ["Props/C19.v", "Props/C19gen.v"]
 LEVEL = "proof"
 SHARD = 150
 MAX_DISCARD = 0.05
